@@ -753,9 +753,18 @@ do_table (void)
     for (const tld_t *t = tld_list; t->domain; t++) {
         size_t n = strlen (t->domain);
         char buf[300];
-        for (int var = 0; var < 5; var++) {
+        for (int var = 0; var < 7; var++) {
             size_t m = n;
             memcpy (buf, t->domain, n + 1);
+            if (var == 5) {         /* bit 0x20 flipped in every character that is not a letter: '-' becomes CR, digits become controls */
+                int any = 0;
+                for (size_t k = 0; k < n; k++) if (!((buf[k] | 0x20) >= 'a' && (buf[k] | 0x20) <= 'z')) { buf[k] ^= 0x20; any = 1; }
+                if (!any) continue;
+            }
+            if (var == 6) {         /* bit 0x20 flipped in every letter (case) and bit 0x80 set in the last byte */
+                for (size_t k = 0; k < n; k++) if ((buf[k] | 0x20) >= 'a' && (buf[k] | 0x20) <= 'z') buf[k] ^= 0x20;
+                buf[n - 1] = (char) (buf[n - 1] | 0x80);
+            }
             if (var == 1) { buf[n] = 'q'; buf[n + 1] = 0; m = n + 1; }            /* one character longer */
             else if (var == 2 && n > 1) { buf[n - 1] = 0; m = n - 1; }              /* proper prefix */
             else if (var == 3) { for (size_t k = 0; k < n; k++) if (buf[k] >= 'a' && buf[k] <= 'z') buf[k] -= 32; }
